@@ -82,3 +82,36 @@ for _g in (4, 5):
     oset(f"at{_g}.registry.fallback-decoder", ["C17"],
          [COMMS + ":UnsupportedMessageDecoder.decode", COMMS + ":UnsupportedMessage.message_id",
           COMMS + ":MessageDecodeResult.assert_complete"])(lambda h, g=_g: _fallback(h, g))
+
+
+def _fresh(h, g):
+    """Constructors: the state the other contracts take as precondition holds initially."""
+    reg_mod = REG4 if g == 4 else REG5
+    f = h.new(reg_mod + ":HeaderFactory")
+    h.oblige("a new header factory starts with a packet id inside the id byte (precondition of create_from_message)",
+             And(h.attr(f, "_next_packet_id") >= 0, h.attr(f, "_next_packet_id") <= 255))
+    parts = [h.new(reg_mod + ":HeaderFactory"), object(), object(), object()]
+    r = h.new(COMMS + ":MessageRegistry", header_factory=parts[0], header_encoder=parts[1], header_decoder=parts[2],
+              checksum_calculator=parts[3])
+    h.oblige("a new registry keeps the four parts it is given",
+             And(h.attr(r, "header_factory") is parts[0], h.attr(r, "header_encoder") is parts[1],
+                 h.attr(r, "header_decoder") is parts[2], h.attr(r, "checksum_calculator") is parts[3]))
+    mid = h.int("message_id", 0, 255)
+    d = h.method(r, "get_decoder", mid)
+    e = h.method(r, "get_encoder", mid)
+    h.oblige("a new registry serves every type byte by the fallback decoder and encodes nothing",
+             And(d.ok, h.isinstance(d.value, COMMS + ":UnsupportedMessageDecoder") if d.ok else False, e.raised("NotImplementedError")))
+    enc, dec = object(), object()
+    h.method(r, "register", message_id=mid, encoder=enc, decoder=dec)
+    d2, e2 = h.method(r, "get_decoder", mid), h.method(r, "get_encoder", mid)
+    h.oblige("register(id, e, d) makes exactly e / d the codec of id", And(d2.ok, e2.ok, d2.value is dec, e2.value is enc))
+    other = h.int("other_id", 0, 255)
+    h.assume(other != mid)
+    d3 = h.method(r, "get_decoder", other)
+    h.oblige("...and leaves every other id with the fallback", And(d3.ok, d3.value is d.value))
+
+
+for _g in (4, 5):
+    oset(f"at{_g}.registry.constructors", ["C17", "C03"],
+         [(REG4 if _g == 4 else REG5) + ":HeaderFactory.__init__", COMMS + ":MessageRegistry.__init__",
+          COMMS + ":MessageRegistry.register"])(lambda h, g=_g: _fresh(h, g))
